@@ -193,10 +193,34 @@ def repo_frame_sig(exc):
     return None
 
 
+class _CaseHang(BaseException):
+    """raised by the per-case watchdog (BaseException: 'except Exception' in the code under test must not swallow it)"""
+
+
+CASE_TIMEOUT_S = int(os.environ.get("VERIF_CASE_TIMEOUT", "900"))
+
+
+def _watchdog(signum, frame):
+    raise _CaseHang()
+
+
 def guarded(oracle, case):
-    """Run the oracle; classify unexpected exceptions."""
+    """Run the oracle; classify unexpected exceptions.  A single case that does not finish within CASE_TIMEOUT_S (the slowest
+    legitimate case takes seconds) is code under test that does not return: reported as a violation, not left hanging."""
+    import signal
+    import threading
+    armed = threading.current_thread() is threading.main_thread() and hasattr(signal, "setitimer")
+    old = None
+    if armed:
+        try:
+            old = signal.signal(signal.SIGALRM, _watchdog)
+            signal.setitimer(signal.ITIMER_REAL, CASE_TIMEOUT_S)
+        except (ValueError, OSError):
+            armed = False
     try:
         return oracle(case)
+    except _CaseHang:
+        raise Violation("hang:case-does-not-finish", "one generated case did not finish within %d s" % CASE_TIMEOUT_S)
     except Violation:
         raise
     except HarnessError:
@@ -208,6 +232,10 @@ def guarded(oracle, case):
         if sig is None:
             raise HarnessError("oracle raised %r\n%s" % (e, traceback.format_exc()))
         raise Violation("crash:" + sig, "%r" % (e,))
+    finally:
+        if armed:
+            signal.setitimer(signal.ITIMER_REAL, 0)
+            signal.signal(signal.SIGALRM, old if old is not None else signal.SIG_DFL)
 
 
 class Sub:
